@@ -212,7 +212,7 @@ theorem error_reported_flush (E : Enc σ) (fuel : Nat) (w : Writer σ) (h : w.ar
         obtain ⟨e, he, hfe⟩ := hf
         rw [hall] at he
         rcases List.mem_append.mp he with h' | h'
-        · rw [p2 rfl e h'] at hfe; exact absurd hfe (by simp)
+        · rw [p2 trivial e h'] at hfe; exact absurd hfe (by simp)
         · rw [k5 e h'] at hfe; exact absurd hfe (by simp)
 
 /-- the std layer keeps the error values in stock: whatever a std call returns, both are present
@@ -513,10 +513,9 @@ theorem all_ok_complete_copy (E : Enc σ) (fuel ib ob : Nat) (e : σ) (src : Sou
       ⟨by simp, by simpa using hob, by simp⟩ h
     obtain ⟨_, j2, j3, j4, j5, j6, j7⟩ := k7 n rfl
     simp only [List.append_nil] at k1 j5
-    have hw0 : ∀ (c : Copy σ), c.availableIn = 0 → c.window = [] := by intro c hc; simp [Copy.window, hc]
-    rw [hw0 _ rfl] at j6
+    simp only [Copy.window, List.take_zero, List.nil_append] at j6
     subst k1
-    exact ⟨j2, j3, j4, by simpa using j5, by simpa using j6, j7⟩
+    exact ⟨j2, j3, j4, by simpa using j5, by simpa [Copy.window] using j6, j7⟩
 
 /-! ## non-vacuity: the hypotheses are met by concrete values -/
 
